@@ -812,6 +812,14 @@ func checkC03(v *tunView, m *connModel) {
 			if ep.Start.Seq > q.at[0].Seq {
 				continue
 			}
+			if ep.End.Seq != 0 && q.at[0].Seq > ep.End.Seq {
+				// first transmitted after the last connection the model follows had ended (a reconnect
+				// that the model does not follow - after Close was invoked - may have come in between,
+				// with the same channel id and a fresh count): not judged, and what was known about that
+				// connection's numbering is forgotten
+				delete(groups, k)
+				return 0, false
+			}
 			if k > 0 && q.at[0].T <= ep.StallUntil+eps {
 				prev := m.epochs[k-1]
 				if q.ch != ep.Channel && q.ch == prev.Channel {
